@@ -4534,6 +4534,8 @@ class ParseCtx:
         if text[0:2] == "0x":
             return sign * int(text[2:], base=16)
         elif text[0:2] == "0b":
+            if len(text) == 2:
+                raise IllegalParseTree("Binary number without digits: " + text)
             return sign * int(text[2:], base=2)
         else:
             return sign * int(text)
